@@ -82,6 +82,8 @@ func (g *Gen) GenFunc(key string) (res *FnResult) {
 	for _, li := range findLoops(fn) {
 		res.Loops = append(res.Loops, fmt.Sprintf("loop %d: %s block %d (%s)", li.ordinal, posOf(g, firstPos(li.header)), li.header.Index, li.header.Comment))
 	}
+	c.topArgs = args
+	c.entry = st.clone()
 	rets, fr := c.run(fn, args, st, path, con, true)
 	if con == nil {
 		return
@@ -248,7 +250,7 @@ func (g *Gen) HeaderFor(r *FnResult) string {
 			continue
 		}
 		fmt.Fprintf(&b, "(declare-const %s %s)\n", p[0], g.TE.heapSort[p[1]])
-		if g.WFAxioms || (r != nil && r.wf != nil && r.wf(p[1])) {
+		if g.WFAxioms || (g.WFEntry && strings.HasSuffix(p[0], "@0")) || (r != nil && r.wf != nil && r.wf(p[1])) {
 			ep := p[0][strings.LastIndex(p[0], "@")+1:]
 			if ax := wfHeapAxiom(p[0], g.TE.heapSort[p[1]], "wfnext@"+ep); ax != "" {
 				b.WriteString(ax + "\n")
